@@ -1,0 +1,64 @@
+// Copyright 2023 Ross Light
+//
+// Licensed under the Apache License, Version 2.0 (the "License");
+// you may not use this file except in compliance with the License.
+// You may obtain a copy of the License at
+//
+//		 https://www.apache.org/licenses/LICENSE-2.0
+//
+// Unless required by applicable law or agreed to in writing, software
+// distributed under the License is distributed on an "AS IS" BASIS,
+// WITHOUT WARRANTIES OR CONDITIONS OF ANY KIND, either express or implied.
+// See the License for the specific language governing permissions and
+// limitations under the License.
+//
+// SPDX-License-Identifier: Apache-2.0
+
+//go:build verif
+
+package commonmark
+
+// This file is only compiled with the "verif" build tag.
+// It exports thin aliases of the unexported line recognizers and byte classifiers
+// so that a verification harness can enumerate them directly.
+// It adds no behavior.
+
+// VerifParseThematicBreak exposes parseThematicBreak.
+func VerifParseThematicBreak(line []byte) (end int) { return parseThematicBreak(line) }
+
+// VerifParseATXHeading exposes parseATXHeading.
+func VerifParseATXHeading(line []byte) (level int, content Span) {
+	h := parseATXHeading(line)
+	return h.level, h.content
+}
+
+// VerifParseSetextHeadingUnderline exposes parseSetextHeadingUnderline.
+func VerifParseSetextHeadingUnderline(line []byte) (level int) {
+	return parseSetextHeadingUnderline(line)
+}
+
+// VerifParseCodeFence exposes parseCodeFence.
+func VerifParseCodeFence(line []byte) (char byte, n int, info Span) {
+	f := parseCodeFence(line)
+	return f.char, f.n, f.info
+}
+
+// VerifParseListMarker exposes parseListMarker.
+func VerifParseListMarker(line []byte) (delim byte, n int, end int) {
+	m := parseListMarker(line)
+	return m.delim, m.n, m.end
+}
+
+// VerifParseCharacterEscape exposes parseCharacterEscape.
+func VerifParseCharacterEscape(text []byte) (end int) { return parseCharacterEscape(text) }
+
+func VerifIsASCIIPunctuation(c byte) bool     { return isASCIIPunctuation(c) }
+func VerifIsASCIIControl(c byte) bool         { return isASCIIControl(c) }
+func VerifIsASCIILetter(c byte) bool          { return isASCIILetter(c) }
+func VerifIsASCIIDigit(c byte) bool           { return isASCIIDigit(c) }
+func VerifIsHex(c byte) bool                  { return isHex(c) }
+func VerifIsSpaceTabOrLineEnding(c byte) bool { return isSpaceTabOrLineEnding(c) }
+func VerifIsUnicodeWhitespace(c rune) bool    { return isUnicodeWhitespace(c) }
+func VerifIsUnicodePunctuation(c rune) bool   { return isUnicodePunctuation(c) }
+func VerifIsBlankLine(line []byte) bool       { return isBlankLine(line) }
+func VerifIsEndEscaped(s []byte) bool         { return isEndEscaped(s) }
